@@ -2,14 +2,17 @@ package harness
 
 import (
 	"context"
-	"os"
-	"testing/synctest"
-	"regexp"
 	"errors"
 	"fmt"
+	"github.com/ipld/go-storethehash/store"
+	"github.com/ipld/go-storethehash/verifshim/vos"
+	"os"
+	"regexp"
+	"runtime"
 	"sort"
 	"strings"
 	"testing"
+	"testing/synctest"
 	"time"
 
 	"github.com/anishathalye/porcupine"
@@ -375,8 +378,10 @@ func execStore(t *testing.T, sc *ConcScenario, choose chooser) *execResult {
 	}
 	res.outcome = sb.String()
 	all := append(append([]callRec{}, recs...), finals...)
-	if res.viol == nil && !checkLinearizable(init, all, sc.Cfg.Immutable) {
-		res.viol = viol("not-linearizable", "no linearization of: %s", sb.String())
+	if res.viol == nil {
+		nl := viol("not-linearizable", "no linearization of: %s", sb.String())
+		classifyConc(sc, recs, nl, init, finals)
+		res.pending = append(res.pending, pendingLin{init, all, sc.Cfg.Immutable, nl})
 	}
 	if fn, ok := sc.Extra["final"].(func(w *World, s *Sched, recs []callRec, res *execResult)); ok {
 		fn(w, s, recs, res)
@@ -684,7 +689,6 @@ func c06Scenarios(tier string) []*ConcScenario {
 	return scs
 }
 
-
 // ---- C12: back-pressure ----
 
 func c12Scenarios(tier string) []*ConcScenario {
@@ -728,4 +732,464 @@ func c12Scenarios(tier string) []*ConcScenario {
 		}
 	}
 	return scs
+}
+
+// ---- C17: Close while background activity is in progress ----
+
+// storeGoroutines returns the stacks of goroutines (other than the caller)
+// that are executing code of the repository's packages.
+func storeGoroutines() []string {
+	buf := make([]byte, 1<<20)
+	n := runtime.Stack(buf, true)
+	var out []string
+	for i, g := range strings.Split(string(buf[:n]), "\n\n") {
+		if i == 0 {
+			continue // the caller
+		}
+		if !strings.Contains(g, "github.com/ipld/go-storethehash/store") && !strings.Contains(g, "github.com/ipld/go-storethehash.") {
+			continue
+		}
+		if strings.Contains(g, "verifharness.") {
+			continue // a harness thread inside a call
+		}
+		lines := strings.Split(g, "\n")
+		fn := ""
+		for _, l := range lines[1:] {
+			if len(l) > 0 && l[0] != '\t' && strings.Contains(l, "go-storethehash") {
+				fn = l
+				break
+			}
+		}
+		if j := strings.LastIndex(fn, "/"); j >= 0 {
+			fn = fn[j+1:]
+		}
+		if j := strings.Index(fn, "("); j > 0 && !strings.HasPrefix(fn[j:], "(*") {
+			fn = fn[:j]
+		}
+		out = append(out, fn)
+	}
+	sort.Strings(out)
+	return out
+}
+
+func execClose(t *testing.T, sc *ConcScenario, choose chooser) *execResult {
+	res := &execResult{}
+	w, err := newWorldWith(sc.Cfg, func(w *World) {
+		w.Sync = time.Second
+		w.GCInt = 10 * time.Second
+		if b, ok := sc.Extra["burst"].(int); ok {
+			w.Burst = uint64(b)
+		}
+	})
+	if err != nil {
+		res.viol = viol("open-error", "open: %v", err)
+		return res
+	}
+	w.FS.StartLog(true)
+	for _, op := range sc.Init {
+		if v := w.Step(op); v != nil {
+			w.Close()
+			res.outcome = "init-failed"
+			return res
+		}
+	}
+	init := map[string]string{}
+	for _, k := range w.Keys {
+		if v, ok := w.Model[string(k.Digest)]; ok {
+			init[k.Name] = string(v)
+		}
+	}
+	if r, ok := sc.Extra["flushRate"].(float64); ok {
+		w.S.VerifSetFlushRate(r)
+	}
+	w.S.Start()
+	s := newSched(sc.Ticks, time.Duration(sc.Tick))
+	var recs []callRec
+	idxOf := make([][]int, len(sc.Threads))
+	for ti, prog := range sc.Threads {
+		for _, op := range prog {
+			idxOf[ti] = append(idxOf[ti], len(recs))
+			recs = append(recs, callRec{Thread: ti + 1, Op: op})
+		}
+	}
+	var closeErr error
+	closeReturned := false
+	var logAtClose, openAtClose int
+	var goroutinesAtClose []string
+	var handlesAtClose []string
+	for ti, prog := range sc.Threads {
+		ti, prog := ti, prog
+		s.spawn(fmt.Sprintf("T%d", ti+1), func() {
+			for oi, op := range prog {
+				r := &recs[idxOf[ti][oi]]
+				s.clock++
+				r.Call = s.clock
+				if op.Kind == OpReopen {
+					// in this engine OpReopen means "Close" only
+					closeErr = w.S.Close()
+					closeReturned = true
+					logAtClose = w.FS.LogLen()
+					_, openAtClose = w.FS.HandleCount()
+					for _, h := range w.FS.OpenHandles() {
+						handlesAtClose = append(handlesAtClose, h.Name+"@"+h.Site)
+					}
+					goroutinesAtClose = storeGoroutines()
+					w.opened = false
+				} else {
+					w.doCall(op, r)
+				}
+				s.clock++
+				r.Ret = s.clock
+				r.Returned = true
+			}
+		})
+	}
+	s.run(choose)
+	res.trace = schedTrace{decisions: append([]decision{}, s.trace.decisions...), steps: append([]string{}, s.trace.steps...)}
+	res.aborted = s.aborted
+	res.conflicts = s.conflicts
+	if s.aborted != "" {
+		if strings.HasPrefix(s.aborted, "replay-divergence") {
+			fmt.Fprintf(os.Stderr, "DIVERGENCE %s: %s\n  steps: %v\n", sc.Name, s.aborted, s.trace.steps)
+		} else {
+			res.viol = viol("deadlock", "%s: %s", s.aborted, s.describe())
+			res.outcome = "aborted:" + s.aborted
+		}
+		abortProcessAfter(res)
+		return res
+	}
+	s.releaseAll()
+	var sb strings.Builder
+	for _, r := range recs {
+		if r.Op.Kind == OpReopen {
+			fmt.Fprintf(&sb, "T%d Close -> %v; ", r.Thread, closeErr)
+			continue
+		}
+		sb.WriteString(r.String())
+		sb.WriteString("; ")
+	}
+	check := func() *Violation {
+		if !closeReturned {
+			return viol("deadlock", "Close did not return: %s", s.describe())
+		}
+		if closeErr != nil {
+			v := viol("call-error", "Close returned %v", closeErr)
+			v.Culprit = "err:" + closeErr.Error()
+			return v
+		}
+		if len(goroutinesAtClose) > 0 {
+			v := violO("resources", "goroutine-outlives-close", "when Close returned these goroutines were still executing store code: %v", goroutinesAtClose)
+			v.Culprit = strings.Join(goroutinesAtClose, ",")
+			return v
+		}
+		if openAtClose != 0 {
+			v := violO("resources", "handle:leaked", "when Close returned %d descriptor(s) were still open: %v", openAtClose, handlesAtClose)
+			return v
+		}
+		// let time pass: three times the longest interval
+		for i := 0; i < 3; i++ {
+			time.Sleep(10*time.Second + time.Nanosecond)
+			synctest.Wait()
+		}
+		if n := w.FS.LogLen(); n != logAtClose {
+			m := w.FS.Log()[logAtClose]
+			v := violO("resources", "fs-mutation-after-close", "%d file-system mutation(s) after Close returned; first: %s", n-logAtClose, m.String())
+			v.Culprit = mutSiteInner(&m)
+			return v
+		}
+		if g := storeGoroutines(); len(g) > 0 {
+			v := violO("resources", "goroutine-outlives-close", "goroutines still executing store code long after Close: %v", g)
+			v.Culprit = strings.Join(g, ",")
+			return v
+		}
+		if _, open := w.FS.HandleCount(); open != 0 {
+			return violO("resources", "handle:leaked", "%d descriptor(s) open long after Close: %v", open, w.FS.OpenHandles())
+		}
+		// every call that returned without error is part of the history; the
+		// reopened store must be a linearization of it, also after GC
+		for _, r := range recs {
+			if r.Err != "" && isMapOp(r.Op.Kind) && r.Op.Kind != OpReopen {
+				v := viol("call-error", "%s", r.String())
+				v.Culprit = "err:" + r.Err
+				return v
+			}
+		}
+		for round := 0; round < 2; round++ {
+			if round == 0 {
+				if err := w.Open(); err != nil {
+					return viol("open-error", "reopen after Close: %v", err)
+				}
+			} else {
+				if mp := w.mh(); mp != nil {
+					w.gcPrimary(mp, context.Background(), 0)
+				}
+				w.gcIndex(context.Background(), true)
+				w.S.Flush()
+				if mp := w.mh(); mp != nil {
+					w.gcPrimary(mp, context.Background(), 0)
+				}
+			}
+			step := s.clock + 10 + 100*round
+			var finals []callRec
+			for ki := range w.Keys {
+				r := callRec{Thread: 0, Op: Op{Kind: OpGet, K: ki}, Call: step, Returned: true}
+				w.doCall(r.Op, &r)
+				step++
+				r.Ret = step
+				step++
+				finals = append(finals, r)
+				if r.Err != "" {
+					v := viol("call-error", "after reopen (round %d): %s", round, r.String())
+					v.Culprit = "err:" + r.Err
+					return v
+				}
+				if round == 0 {
+					sb.WriteString(r.String())
+					sb.WriteString("; ")
+				}
+			}
+			var hist []callRec
+			for _, r := range recs {
+				if r.Op.Kind != OpReopen {
+					hist = append(hist, r)
+				}
+			}
+			what := "after reopen"
+			if round == 1 {
+				what = "after reopen and one further GC round"
+			}
+			var fs strings.Builder
+			for _, r := range finals {
+				fs.WriteString(r.String())
+				fs.WriteString("; ")
+			}
+			nl := viol("not-linearizable", "%s the store is not a linearization of the acknowledged calls: %s reads: %s", what, sb.String(), fs.String())
+			if round == 1 {
+				nl.Symptom = "not-linearizable-after-gc"
+			}
+			if inProg := sc.Extra["inProgress"]; inProg != nil {
+				nl.Trigger = fmt.Sprintf("close-during:%v", inProg)
+			}
+			res.pending = append(res.pending, pendingLin{init, append(hist, finals...), sc.Cfg.Immutable, nl})
+		}
+		return nil
+	}
+	res.viol = check()
+	res.outcome = sb.String()
+	if res.viol != nil {
+		if res.viol.Oracle == "" {
+			res.viol.Oracle = "map"
+		}
+		inProg := sc.Extra["inProgress"]
+		if inProg != nil && res.viol.Trigger == "" {
+			res.viol.Trigger = fmt.Sprintf("close-during:%v", inProg)
+		}
+	}
+	func() {
+		defer func() { recover() }()
+		if !closeReturned || w.opened {
+			w.opened = true
+			w.Close()
+		}
+	}()
+	return res
+}
+
+func c17Scenarios(tier string) []*ConcScenario {
+	// file 0 of the primary ends up as [K0=L70 (freed), K1=a (live)]: more
+	// than 85% free, so the background primary GC (fixed threshold 85)
+	// relocates K1 out of it; index files roll on every flush.
+	G := []Op{P(0, 5), P(1, 1), opF, P(0, 1), opF, P(4, 1), opF, P(4, 2)}
+	closeOp := Op{Kind: OpReopen}
+	type prog struct {
+		name   string
+		init   []Op
+		ths    [][]Op
+		ticks  int
+		tick   time.Duration
+		inProg string
+		bound  int
+	}
+	b := 2
+	if tier != "quick" {
+		b = 3
+	}
+	progs := []prog{
+		{"idle", G, [][]Op{{closeOp}}, 0, 0, "nothing", b},
+		{"flush-in-progress", G, [][]Op{{closeOp}}, 1, time.Second, "flusher", b},
+		{"primary-gc-in-progress", G, [][]Op{{closeOp}}, 1, 5 * time.Second, "primary-gc", b - 1},
+		{"index-gc-in-progress", G, [][]Op{{closeOp}}, 2, 5 * time.Second, "index-gc+primary-gc", b - 1},
+	}
+	if tier != "quick" {
+		progs = append(progs,
+			prog{"double-close", G, [][]Op{{closeOp}, {closeOp}}, 1, 5 * time.Second, "second-close+primary-gc", b - 1},
+		)
+	}
+	var scs []*ConcScenario
+	for _, c := range []Config{cfg("mh", false, 8, 1, 90)} {
+		for _, p := range progs {
+			for _, selDesc := range []bool{false, true} {
+				cc := c
+				cc.SelDesc = selDesc
+				extra := map[string]any{"inProgress": p.inProg}
+				sc := &ConcScenario{Prop: "C17", Cfg: cc, Init: p.init, Threads: p.ths, Bound: p.bound, Ticks: p.ticks, Tick: int64(p.tick), Exec: execClose, Extra: extra}
+				sc.Name = fmt.Sprintf("c17/%s/seldesc=%v", p.name, selDesc)
+				sc.Desc = fmt.Sprintf("real flusher + both collectors (sync 1s, GC interval 10s, primary GC first at 5s), %d tick(s) of %v, select priority desc=%v, bound %d; init [%s]; %s (Reopen[snapshot] stands for Close)", p.ticks, p.tick, selDesc, p.bound, opsString(p.init), progString(p.ths))
+				scs = append(scs, sc)
+			}
+		}
+	}
+	return scs
+}
+
+// ---- C17, sequential part: failing opens and repeated open/close ----
+
+func runC17Seq(t *testing.T, c *Collector) {
+	if c.job.Shard != 0 {
+		return
+	}
+	type failing struct {
+		name   string
+		mutate func(w *World) // damage files / change configuration
+		opts   func(w *World) []store.Option
+		ptype  string
+	}
+	withIdxFS := func(n uint32) func(w *World) []store.Option {
+		return func(w *World) []store.Option {
+			o := w.options()
+			return append(o, store.IndexFileSize(n))
+		}
+	}
+	cases := []failing{
+		{"index-file-size-mismatch", nil, withIdxFS(64), ""},
+		{"primary-file-size-mismatch", nil, func(w *World) []store.Option { return append(w.options(), store.PrimaryFileSize(64)) }, ""},
+		{"both-file-sizes-mismatch", nil, func(w *World) []store.Option {
+			return append(w.options(), store.PrimaryFileSize(64), store.IndexFileSize(64))
+		}, ""},
+		{"bit-size-change+index-file-size-mismatch", nil, func(w *World) []store.Option {
+			return append(w.options(), store.IndexBitSize(12), store.IndexFileSize(64))
+		}, ""},
+		{"empty-index-header", func(w *World) { w.FS.WriteFileRaw(idxPath+".info", nil) }, nil, ""},
+		{"garbage-index-header", func(w *World) { w.FS.WriteFileRaw(idxPath+".info", []byte("{not json")) }, nil, ""},
+		{"garbage-primary-header", func(w *World) { w.FS.WriteFileRaw(dataPath+".info", []byte("\x00\x01")) }, nil, ""},
+		{"unsupported-primary-type", nil, nil, "no-such-primary"},
+	}
+	for _, fc := range cases {
+		fc := fc
+		synctest.Test(t, func(t *testing.T) {
+			c.res.Evaluations++
+			w, err := NewWorld(cfg("mh", false, 8, 48, 48))
+			if err != nil {
+				c.res.InfraError = err.Error()
+				return
+			}
+			w.FS.TrackSites(true)
+			for _, op := range []Op{P(0, 1), P(1, 2), opF, P(4, 1), R(1), P(0, 3)} {
+				c.res.Transitions++
+				if v := w.Step(op); v != nil {
+					w.Close()
+					return
+				}
+			}
+			if err := w.Close(); err != nil {
+				return
+			}
+			good := w.FS.Image()
+			if fc.mutate != nil {
+				fc.mutate(w)
+			}
+			opts := w.options()
+			if fc.opts != nil {
+				opts = fc.opts(w)
+			}
+			ptype := w.Cfg.primaryType()
+			if fc.ptype != "" {
+				ptype = fc.ptype
+			}
+			vos.SetBackend(w.FS)
+			s, err := store.OpenStore(context.Background(), ptype, dataPath, idxPath, false, opts...)
+			c.res.Transitions++
+			report := func(v *Violation) {
+				v.Property = "C17"
+				v.Oracle = "resources"
+				v.Trigger = "failing-open:" + fc.name
+				v.History = "Put(K0,a); Put(K1,bb); Flush; Put(K4,a); Remove(K1); Put(K0,cc); Close; OpenStore[" + fc.name + "]"
+				v.Replay = map[string]any{"engine": "S-open", "case": fc.name}
+				c.violation(v, 0)
+			}
+			if err == nil {
+				s.Close()
+				report(viol("wrong-return", "OpenStore[%s] succeeded, expected it to fail", fc.name))
+				return
+			}
+			synctest.Wait()
+			if _, open := w.FS.HandleCount(); open != 0 {
+				report(viol("handle:leaked", "failed OpenStore[%s] (%v) left %d descriptor(s) open: %v", fc.name, err, open, w.FS.OpenHandles()))
+				return
+			}
+			if g := storeGoroutines(); len(g) > 0 {
+				v := viol("goroutine-outlives-close", "failed OpenStore[%s] (%v) left goroutines running: %v", fc.name, err, g)
+				v.Culprit = strings.Join(g, ",")
+				report(v)
+				return
+			}
+			c.stateKey("failing-open:" + fc.name + ":" + err.Error())
+			c.count("nontrivial", 1)
+			// the directory still opens with the right settings (from the undamaged image)
+			if fc.mutate == nil {
+				if err := w.Open(); err != nil {
+					report(viol("open-error", "after failed OpenStore[%s] the store no longer opens with its own settings: %v", fc.name, err))
+					return
+				}
+				if v := w.Reads(); v != nil {
+					v.Detail = "after failed OpenStore[" + fc.name + "]: " + v.Detail
+					report(v)
+				}
+				w.Close()
+			}
+			_ = good
+		})
+	}
+	// repetition: open / ops / close cycles must not accumulate anything
+	synctest.Test(t, func(t *testing.T) {
+		c.res.Evaluations++
+		w, err := NewWorld(cfg("mh", false, 8, 48, 48))
+		if err != nil {
+			c.res.InfraError = err.Error()
+			return
+		}
+		for i := 0; i < 20; i++ {
+			w.S.Start()
+			for _, op := range []Op{P(i%5, 1+i%3), R((i + 1) % 5), opF, {Kind: OpPriGC, A: 50}, {Kind: OpIdxGC, B: true}} {
+				c.res.Transitions++
+				if v := w.Step(op); v != nil {
+					w.Close()
+					return
+				}
+			}
+			if err := w.Close(); err != nil {
+				return
+			}
+			synctest.Wait()
+			_, open := w.FS.HandleCount()
+			g := storeGoroutines()
+			if open != 0 || len(g) != 0 {
+				v := viol("handle:leaked", "after open/close cycle %d: %d descriptor(s) open, goroutines %v", i+1, open, g)
+				if len(g) != 0 {
+					v.Symptom = "goroutine-outlives-close"
+				}
+				v.Property, v.Oracle, v.Trigger = "C17", "resources", "repeated-open-close"
+				v.History = fmt.Sprintf("%d open/ops/close cycles", i+1)
+				v.Replay = map[string]any{"engine": "S-open", "case": "repeat"}
+				c.violation(v, i)
+				return
+			}
+			if err := w.Open(); err != nil {
+				return
+			}
+		}
+		w.Close()
+		c.count("nontrivial", 1)
+		c.stateKey("repeat-20")
+	})
 }
